@@ -14,7 +14,7 @@ about the scratch value a smoother leaves behind), every memory, all `Î½1 Î½2 â‰
 and every number of levels.
 -/
 namespace C10
-open Cycle
+open MGCycle
 
 variable {V : Type}
 
